@@ -117,4 +117,14 @@ CHECKS = {
            "Not decided: documents not produced by the writer (C09)."),
   "design_ref": "DESIGN.md §5 C08", "note": _NOTE,
   "technique": "static analysis: writer/reader agreement (CODEC) by evaluating both transformation ASTs over finite abstractions of every carried dimension (join-key agreement, kind closure over the cardinality domain, operator vocabulary)"},
+ "C07": {
+  "text": ("CODEC closure for FeatureIDE XML by composing FeatureIDEWriter.transform and FeatureIDEReader.transform from "
+           "source over XML element stand-ins (stdlib serialises/parses the evaluated tree): per class of every "
+           "dimension of the fragment (parents with only mandatory/optional children; single or-/alternative group "
+           "incl. the root; abstract flags; name shapes; each constraint operator at every position; single-literal "
+           "constraint; no constraints) the model read back equals the one written, constraints up to logical "
+           "equivalence by truth table; cycles are fixpoints; returned bytes = written bytes; output well-formed. "
+           "Not decided: documents not produced by the writer (C09)."),
+  "design_ref": "DESIGN.md §5 C07", "note": _NOTE,
+  "technique": "static analysis: writer/reader agreement (CODEC) by evaluating both transformation ASTs over finite abstractions of every carried dimension; XML element stand-ins; truth-table equivalence of constraints"},
 }
